@@ -252,6 +252,39 @@ def run_stream(name, gen_cmd, go_cmd, lean_cmd, workdir, timeout=3000, ops_lines
             "go_err": eg.decode(errors="replace")[-500:], "lean_err": el.decode(errors="replace")[-500:],
             "secs": time.time() - t0}
 
+def attribute_crash(st, go_cmd, workdir, name):
+    """The Go side of a differential stream died (a fatal error of the process: stack overflow, out of
+    memory, a crash outside any recover). Find the line that killed it: re-run the lines it had not
+    answered yet with one write per answer (VERIF_FLUSH), the first unanswered line of that run is
+    the candidate; it counts only if the process dies again when it is given that line alone.
+    Returns {"op":…, "go":…} or None."""
+    try:
+        with open(st["go"], "rb") as f:
+            answered = f.read().count(b"\n")
+        with open(st["ops"], "r", errors="replace") as f:
+            ops = [l.rstrip("\n") for l in f if l.strip()]
+        rest = ops[answered:]
+        env = dict(os.environ); env["VERIF_FLUSH"] = "1"
+        for _ in range(3):
+            if not rest:
+                return None
+            p = subprocess.run(go_cmd, input=("\n".join(rest) + "\n").encode(), stdout=subprocess.PIPE, stderr=subprocess.PIPE, env=env, timeout=3000)
+            if p.returncode == 0:
+                return None
+            k = p.stdout.count(b"\n")
+            if k >= len(rest):
+                return None
+            cand = rest[k]
+            q = subprocess.run(go_cmd, input=(cand + "\n").encode(), stdout=subprocess.PIPE, stderr=subprocess.PIPE, env=env, timeout=600)
+            if q.returncode != 0:
+                err = q.stderr.decode(errors="replace")
+                first = next((l for l in err.splitlines() if l.startswith(("fatal error", "panic:", "runtime:", "signal", "unexpected fault"))), err[:200])
+                return {"op": cand[:4000], "go": "PROCESS-KILLED " + first[:300], "lean": ""}
+            rest = rest[k + 1:]   # died there only in context: look further
+    except Exception as e:  # the attribution is best effort; the crash itself is still reported
+        return None
+    return None
+
 def compare_stream(st, flag_re, max_report=20, diff_violation=None, diff_ignore=None):
     """Walk the three files in lockstep. Returns (lines, flagged, diffs, samples, distinct)."""
     flagged, diffs, samples = [], [], []
